@@ -699,6 +699,11 @@ class NumpyModel(object):
                 dz = self.dim_z(dim)
                 n = I.mk((dz + (st - 1)) / st, 'int')
                 return Sel('map', n=self.norm_dim(n), fn=lambda r, st=st: r * st)
+            if isinstance(st, int) and st > 1 and isinstance(sl.start, int) and sl.start > 0 and sl.stop is None:
+                dz = self.dim_z(dim)
+                a0 = sl.start
+                n = z3.If(dz > a0, (dz - a0 + (st - 1)) / st, z3.IntVal(0))
+                return Sel('map', n=self.norm_dim(z3.simplify(n)), fn=lambda r, st=st, a0=a0: a0 + r * st)
             raise Unsupported('extended slice with symbolic bounds')
         if sl.start is None and sl.stop is None:
             s_ = Sel('map', n=dim, fn=lambda r: r)
@@ -1861,6 +1866,27 @@ class NumpyModel(object):
         @reg('histogram2d')
         def _histogram2d(I_, a, k):
             return self.histogram2d(a, k)
+
+        @reg('histogram')
+        def _histogram(I_, a, k):
+            x = I_.force(a[0])
+            bins = I_.force(k.get('bins', a[1] if len(a) > 1 else 10))
+            if isinstance(bins, Opaque) and bins.tag == 'havoc':
+                # bins taken from state the loop invariant does not describe: the result is unknown as well
+                return stamp(Seq('tuple', [Opaque('havoc', 'histogram over undescribed bins'), bins]))
+            if not (isinstance(bins, NDArr) and bins.ndim == 1):
+                raise Unsupported('np.histogram with a bin count')
+            nb = self.dim_z(bins.shape[0]) - 1
+            from .interp import raise_py as _rp
+            if I_.ctx.branch(nb < 1, safety=True):
+                _rp('ValueError', '`bins` must have at least two edges')
+            Hc = I_.ctx.fresh_fn('hist', z3.IntSort(), z3.IntSort())
+            j_ = z3.Int('h1_j')
+            I_.ctx.assume(z3.ForAll([j_], Hc(j_) >= 0, patterns=[Hc(j_)]))
+            self.ax('np.histogram(x, edges): non-negative counts per bin of the given edges; returns the edges it was given')
+            out = self.new([self.norm_dim(nb)], 'int', lambda t, Hc=Hc: Hc(t))
+            out.hist1_of = (x, bins)
+            return stamp(Seq('tuple', [out, bins]))
 
         @reg('digitize')
         def _digitize(I_, a, k):
